@@ -390,6 +390,22 @@ def run_freeform(case, emit):
             if _api_box(g) != _bbox(members):
                 emit(Violation("C17:freeform-in-group-no-recalc",
                                "group box %r after convert_to_shape, members span %r" % (_api_box(g), _bbox(members))))
+    # the same builder extended after it was converted (more contours reaching further), converted again
+    if case.get("extend"):
+        import copy as _copy
+        ff2 = _copy.deepcopy(ff)
+        with sut("C17:freeform:build"):
+            for c in case["extend"]:
+                fb.move_to(c["move"][0], c["move"][1])
+                verts = [(v[0], v[1]) for v in c["verts"]]
+                if c["close"] is None:
+                    fb.add_line_segments(verts)
+                else:
+                    fb.add_line_segments(verts, close=c["close"])
+                ff2["contours"].append(c)
+        origin = case["origins"][0]
+        shape = convert_freeform(fb, origin)
+        check_freeform(shape, ff2, origin)
     return {}
 
 
@@ -622,6 +638,25 @@ def run_group(case, emit):
         # index counts from the most recently created container so new groups get populated
         node, shapes = eligible[-1 - (op["c"] % len(eligible))]
         x, y, w, h, aux = op["x"], op["y"], op["w"], op["h"], op["aux"]
+        if kind == "move":
+            # reposition an existing leaf member (not an addition: the enclosing groups are stale until the
+            # next addition into that subtree, which must then repair the whole chain of ancestors)
+            leaf_idx = [i for i, c in enumerate(node.children) if c.children is None]
+            if not leaf_idx:
+                continue
+            i = leaf_idx[aux % len(leaf_idx)]
+            member = list(shapes)[i]
+            with sut("C17:group:move-member"):
+                member.left = x
+                member.top = y
+            node.children[i].box = _api_box(member)
+            for n in [node] + list(node.ancestors()):
+                if n.kind == "group":
+                    stale.add(id(n))
+            stats["kinds"].add("move")
+            stats["ops"] += 1
+            _verify_groups(slide, root, "move", node, stale, emit, stats)
+            continue
         if kind == "group":
             with sut("C17:group:add_group_shape"):
                 g = shapes.add_group_shape()
@@ -698,7 +733,7 @@ def _strategies():
             "m": st.lists(sub, min_size=1, max_size=3),
         }).map(lambda d: d if d["k"] == "group_of" else {k: v for k, v in d.items() if k != "m"})
 
-    op = op_of(st.sampled_from(GROUP_KINDS + ["shape", "group", "group", "group", "freeform", "connector"]))
+    op = op_of(st.sampled_from(GROUP_KINDS + ["shape", "group", "group", "group", "freeform", "connector", "move", "move"]))
     first = op_of(st.sampled_from(["group", "group", "group_of"]))  # cases that start by making a group
     grp = st.fixed_dictionaries({"ops": st.one_of(
         st.lists(op, min_size=1, max_size=14),
@@ -728,6 +763,7 @@ def _strategies():
         "ff": st.fixed_dictionaries({"start": pt, "scale": scale,
                                      "contours": st.lists(contour, min_size=1, max_size=4)}),
         "origins": st.lists(origin, min_size=1, max_size=2),
+        "extend": st.one_of(st.just([]), st.just([]), st.lists(contour, min_size=1, max_size=2)),
     })
     return cxn, grp, ff
 
@@ -806,6 +842,8 @@ def run_job(job, seed, tier, rec, known):
                 classes.append("ff:half-tie")
             if len(case["origins"]) > 1:
                 classes.append("ff:converted-twice")
+            if case.get("extend"):
+                classes.append("ff:builder-extended-after-conversion")
             if any(c["close"] is False for c in f["contours"]):
                 classes.append("ff:open-contour")
             rec.note(["ff", case], ff_nontrivial(f), classes)
